@@ -131,6 +131,9 @@ def run (ctx):
     ctx.ob('R-AGREE', h, "the installed flow outputs to the port learned for the destination", good, "port = %s; %s" % (norm(pd), norm(outs[0]) if outs else '?'), h, 'D3')
     for tname in ('idle_timeout', 'hard_timeout'):
       v = sts.get(tname); k = q.try_int(v) if v is not None else None
+      if k is None and v is not None:
+        k = repo.try_const(mod, v, h.cls)
+        if not isinstance(k, int): k = None
       ctx.ob('R-AGREE', h, "installed flows expire (%s)" % tname, k is not None and k > 0, "%s = %s" % (tname, k), h, 'D3')
   # ---- D4 switch / codec side ----------------------------------------------------------------------
   sw = switchq.switch_class(repo); swmod = sw.module
@@ -154,19 +157,69 @@ def run (ctx):
   LOF = 'openflow.libopenflow_01'
   fm = repo.cls(LOF, 'ofp_flow_mod'); pk = q.find_method(repo, fm, 'pack', 'C11'); ctx.analysed(pk)
   g4 = q.cfg_of(pk)
-  po = [q.enclosing_stmt_node(g4, s_) for t, v, s_, k in q.stores_in(pk.node) if isinstance(t, ast.Name) and t.id == 'po' and isinstance(v, ast.Call) and call_name(v) == 'ofp_packet_out']
+  # decided by evaluating pack() under four scenarios: which value reaches the buffer-id slot, and is the extra
+  # packet-out (for unbuffered data) built
+  NOBUF = repo.try_const(repo.mod(LOF), ast.Name(id='NO_BUFFER', ctx=ast.Load()), fm)
+  def scenario (buffer_id, data):
+    ex = {'self.buffer_id': buffer_id}
+    ms = []
+    if data is None:
+      ex['self.data'] = None
+    else:
+      dbuf, complete = data
+      ex['self.data'] = '<packet-in>'; ex['self.data.buffer_id'] = dbuf; ex['self.data.is_complete'] = complete; ex['self.data.in_port'] = 3
+      ms.append(((lambda e: isinstance(e, ast.Call) and call_name(e) == 'isinstance'), True))
+    ms.append(((lambda e: isinstance(e, ast.Call) and call_name(e) == '_assert'), True))
+    return q.Env(ex, ms)
+  packs = []
+  for n in g4.nodes:
+    for c in q.node_calls(n):
+      if call_name(c) == 'pack' and norm(c.func.value) == 'struct' and len(c.args) > 1: packs.append((n, c))
+  def slot_values (env):
+    out = {}
+    for n, c in packs:
+      for i, a_ in enumerate(c.args[1:]):
+        out[(id(c), i)] = q.values_at(repo, repo.mod(LOF), g4, env, n, a_, fm)
+    return out
+  def po_built (env):
+    r = q.reach_under_cp(repo, repo.mod(LOF), g4, env, fm)
+    return any(any(call_name(c) == 'ofp_packet_out' for c in q.node_calls(n)) for n in r)
+  S_own = slot_values(scenario(55, None)); S_none = slot_values(scenario(None, None))
+  S_buf = slot_values(scenario(None, (77, True))); S_unbuf = slot_values(scenario(None, (None, True)))
+  slot = [k_ for k_, v_ in S_own.items() if v_ == {55}]
+  ctx.floor('flow_mod.pack: buffer-id slot identified', len(slot), 1)
+  if slot:
+    k_ = slot[0]
+    ctx.ob('R-AGREE', pk, "a flow-mod's own buffer id is what goes on the wire", True, "buffer_id=55, no data -> slot 55", pk, 'D4')
+    ctx.ob('R-AGREE', pk, "no buffer and no data is encoded as NO_BUFFER", S_none[k_] == {NOBUF}, "slot %s" % sorted(map(str, S_none[k_])), pk, 'D4')
+    good = S_buf[k_] == {77}
+    ctx.ob('R-AGREE', pk, "a flow-mod given a buffered packet-in reuses its buffer id", good, "data.buffer_id=77 -> slot 77" if good else
+           "with data = packet-in(buffer_id=77) the buffer-id slot carries %s: the switch never releases buffer 77" % sorted(map(str, S_buf[k_])), pk, 'D4')
+    good = S_unbuf[k_] == {NOBUF} and po_built(scenario(None, (None, True))) and not po_built(scenario(None, (77, True))) and not po_built(scenario(55, None))
+    ctx.ob('R-DOM', pk, "an extra packet-out is generated only for complete, unbuffered packet-in data", good,
+           "unbuffered complete data -> NO_BUFFER + packet-out; buffered data / no data -> no packet-out" if good else
+           "unbuffered data: slot %s, packet-out built: %s; buffered data builds packet-out: %s" % (sorted(map(str, S_unbuf[k_])), po_built(scenario(None, (None, True))), po_built(scenario(None, (77, True)))), pk, 'D4')
+  elif packs:
+    ctx.bad('R-AGREE', pk, "a flow-mod's own buffer id is what goes on the wire", "with buffer_id=55 and no data no struct.pack argument evaluates to 55 (values: %s): an explicitly set buffer id is lost, the switch never releases that buffer" % sorted(set(str(sorted(map(str, v_))) for v_ in S_own.values()))[:6], pk, 'D4')
+  po = [q.enclosing_stmt_node(g4, s_) for t, v, s_, k in q.stores_in(pk.node) if isinstance(t, ast.Name) and isinstance(v, ast.Call) and call_name(v) == 'ofp_packet_out']
   if po:
-    fs = q.fact_strs(g4, po[0])
-    good = 'self.buffer_id is None' in fs and any(f.startswith('self.data.is_complete') for f in fs)
-    ctx.ob('R-DOM', pk, "an extra packet-out is generated only for complete, unbuffered packet-in data", good, "under data complete and no buffer id" if good else "facts %s" % fs, pk, 'D4')
-    sts = dict((t.attr, norm(v)) for t, v, s_, k in q.stores_in(pk.node) if isinstance(t, ast.Attribute) and norm(t.value) == 'po' and v is not None)
-    ctx.ob('R-AGREE', pk, "the generated packet-out keeps the packet-in's ingress port", sts.get('in_port') == 'self.data.in_port', "po.in_port = %s" % sts.get('in_port'), pk, 'D4')
+    pov = [t.id for t, v, s_, k in q.stores_in(pk.node) if isinstance(t, ast.Name) and isinstance(v, ast.Call) and call_name(v) == 'ofp_packet_out'][0]
+    sts = dict((t.attr, norm(v)) for t, v, s_, k in q.stores_in(pk.node) if isinstance(t, ast.Attribute) and norm(t.value) == pov and v is not None)
+    ctx.ob('R-AGREE', pk, "the generated packet-out keeps the packet-in's ingress port", sts.get('in_port', '').endswith('.in_port') and 'data' in sts.get('in_port', ''), "%s.in_port = %s" % (pov, sts.get('in_port')), pk, 'D4')
     outs = [c for c in calls_in(pk.node) if call_name(c) == 'ofp_action_output']
     ctx.ob('R-AGREE', pk, "the generated packet-out goes through the flow table", bool(outs) and norm(kwarg(outs[0], 'port', 0)) == 'OFPP_TABLE', norm(outs[0]) if outs else "?", pk, 'D4')
-    bar = g4.nodes_with_call(lambda c: call_name(c) == 'ofp_barrier_request'); pp = g4.nodes_with_call(lambda c: call_name(c) == 'pack' and norm(c.func.value) == 'po')
+    bar = g4.nodes_with_call(lambda c: call_name(c) == 'ofp_barrier_request'); pp = []
+    for n_ in g4.nodes:
+      for c_ in q.node_calls(n_):
+        if call_name(c_) == 'pack' and isinstance(c_.func.value, ast.Name) and c_.func.value.id != 'struct':
+          nm_ = c_.func.value.id
+          if nm_ == pov or any(f_.startswith(nm_ + ':truthy') or f_.startswith(nm_ + ' is not None') for f_ in q.fact_strs(g4, n_)): pp.append(n_)
     ctx.ob('R-ORDER', pk, "barrier precedes the generated packet-out (the flow is installed first)", bool(bar) and bool(pp) and g4.dominates(bar[0], pp[0]), "barrier then packet-out", pk, 'D4')
-  take = [s_ for t, v, s_, k in q.stores_in(pk.node) if norm(t) == 'self.buffer_id' and v is not None and norm(v) == 'self.data.buffer_id']
-  ctx.ob('R-AGREE', pk, "a flow-mod given a buffered packet-in reuses its buffer id", bool(take), norm(take[0]) if take else "flow_mod.pack no longer takes the buffer id from its data", pk, 'D4')
+  # the packet-in the controller works from must be complete unless it is buffered (shared with C18: a truncated, unbuffered
+  # packet-in makes packet_out.data assert and flow_mod.pack skip the forward - the frame is delivered nowhere)
+  from . import c18
+  spi = q.find_method(repo, sw, 'send_packet_in', 'C11 packet-in'); ctx.analysed(spi)
+  c18.packet_in_rules(ctx, repo, spi)
   pout = repo.cls(LOF, 'ofp_packet_out')
   ds = [f for f in pout.node.body if isinstance(f, ast.FunctionDef) and f.name == 'data' and any(isinstance(d, ast.Attribute) and d.attr == 'setter' for d in f.decorator_list)]
   if ds:
@@ -177,7 +230,8 @@ def run (ctx):
     raw = [c for a, b, c in sts if a == 'self._data' and b == dv + '._data']
     if raw:
       fs = q.fact_strs(gg, q.enclosing_stmt_node(gg, raw[0]))
-      ctx.ob('R-DOM', pout.qual + '.data', "raw bytes are copied only when the packet-in is unbuffered", 'self.buffer_id is None' in fs, "under buffer_id is None", (pout.module, d), 'D4')
+      good = 'self.buffer_id is None' in fs or (dv + '.buffer_id is None') in fs
+      ctx.ob('R-DOM', pout.qual + '.data', "raw bytes are copied only when the packet-in is unbuffered", good, "under buffer_id is None" if good else "the packet-in's bytes are copied although it is buffered (facts %s): the switch would emit the data instead of the buffered packet" % fs, (pout.module, d), 'D4')
   else:
     ctx.undecided('R-AGREE', pout.qual, "packet_out.data setter", "setter not found", pout, 'D4')
   for nm, node in defs.undefined_names(repo, h):
